@@ -306,7 +306,7 @@ def expr_local(fn, local, depth=0, seen=None):
         if x[0] == "call":
             t = x[2]
             return ("call", t[1], [expr_operand(fn, a, depth + 1, seen2) for a in t[2]], x[1])
-    if not ds and 1 <= local <= fn["nargs"]:
+    if not whole and 1 <= local <= fn["nargs"]:
         return ("arg", local)
     return ("phi", local)
 
@@ -357,7 +357,7 @@ def expr_rvalue(fn, rv, depth=0, seen=None):
     if k == "un":
         return ("un", rv[1], expr_operand(fn, rv[2], depth, seen))
     if k == "discr":
-        return ("discr", expr_place(fn, rv[1], depth, seen), rv[2] if len(rv) > 2 else "")
+        return ("discr", expr_place(fn, rv[1], depth, seen), rv[2] if len(rv) > 2 else "", rv[3] if len(rv) > 3 else None)
     if k == "agg":
         return ("agg", rv[1], [expr_operand(fn, o, depth, seen) for o in rv[2]])
     return ("unknown", k)
@@ -534,6 +534,13 @@ def decompose(db, e, val, out, depth=0):
         return
     if k == "discr":
         names, adt = variant_names(db, e[2])
+        if len(e) > 3 and e[3]:
+            names = {}
+            for v, nme in e[3]:
+                iv = int(v)
+                names[iv] = nme
+                if iv >= (1 << 127):
+                    names[iv - (1 << 128)] = nme
         inner = e[1]
         if names is None:
             out.append(("discrval", inner, val))
@@ -769,3 +776,22 @@ def base_value(e, through=()):
             continue
         return e
     return e
+
+
+def nshow(e):
+    """show() without reference/dereference noise."""
+    return show(e).replace("&", "").replace("*", "")
+
+
+def walk(e, depth=0):
+    """All sub-expressions of e."""
+    if depth > 40 or not isinstance(e, tuple):
+        return
+    yield e
+    for x in e[1:]:
+        if isinstance(x, tuple):
+            yield from walk(x, depth + 1)
+        elif isinstance(x, list):
+            for y in x:
+                if isinstance(y, tuple):
+                    yield from walk(y, depth + 1)
